@@ -23,7 +23,12 @@ P1Verdict(t) ==
       kf == IF t.rotated THEN " KF=C13-rotated-lattice" ELSE ""
   IN
   IF ~(\A c \in Idx : t.size[c] \in 1..3) THEN "OOD size" ELSE
-  IF ~OrbitsDisjoint(t.ops, t.asym, t.n) THEN "OOD overlapping-orbits" ELSE
+  \* two occupants of one site (disorder): which of them the unit-cell listing keeps is not prescribed here; what is: the crystal and
+  \* its P1 / supercell form are the same matter in the same volume - the same density
+  IF ~OrbitsDisjoint(t.ops, t.asym, t.n) THEN
+     (IF t.shared /\ t.new.exc = "" /\ t.new.number = 1 /\ t.new.nops = 1 /\ ~t.new.gramoff /\ t.new.gram = SuperGram(t.gram, t.size)
+      THEN (IF CloseRel(t.dens_old, t.new.dens) THEN "ACCEPT note=shared-site-density-only" ELSE "REJECT Density:" \o t.call)
+      ELSE "OOD overlapping-orbits") ELSE
   IF t.new.exc # "" THEN "REJECT Raised:" \o t.call ELSE
   IF ~(t.new.number = 1 /\ t.new.nops = 1) THEN "REJECT NotP1:" \o t.call ELSE
   IF t.new.gramoff \/ t.new.gram # SuperGram(t.gram, t.size) THEN "REJECT Cell:" \o t.call \o kf ELSE
